@@ -607,15 +607,16 @@ M("C07", "frozen-now-at-import", "admin/certificate_v2.py",
   '''            now = datetime.now(UTC)''',
   '''            now = HSMCertificateV2ElementX509.__dict__.get("_T0") or datetime.now(UTC)
             HSMCertificateV2ElementX509._T0 = now''')
-M("C03", "revert-fix-recursion-while-handling", "comm/server.py",
-  '''            try:
-                response = self.protocol.handle_request(request)
-            except RecursionError as e:
-                # A document nested just under the parser's limit can still
-                # be too deep to be handled (e.g. logged). Same treatment.
-                raise json.decoder.JSONDecodeError(format(e), data, 0)
+M("C03", "revert-fix-recursion-while-logging", "comm/protocol.py",
+  '''        try:
+            self.logger.info("In %s", request)
+        except RecursionError:
+            # A document nested just under the JSON parser's limit is still
+            # too deep to be formatted for the log. Same treatment as one
+            # that the parser itself turns down.
+            return self.format_error()
 ''',
-  '''            response = self.protocol.handle_request(request)
+  '''        self.logger.info("In %s", request)
 ''')
 M("C17", "revert-fix-canonical-hash", "admin/signer_authorization.py",
   "        self._hash = bytes.fromhex(hash).hex()\n", "        self._hash = hash.lower()\n")
